@@ -37,7 +37,7 @@
 EXTENDS Integers, Sequences, FiniteSets, TLC, Json, IOUtils
 
 CONSTANTS
-    Slices,    \* which families of cases: subset of {"fallback", "tail", "inst", "inst3", "axesfea"}
+    Slices,    \* which families of cases: subset of {"fallback", "tail", "inst", "inst3", "axesfea", "cvparams"}
     Tier       \* "quick" | "thorough": sizes of the pools (see the .cfg headers)
 
 VARIABLES c, x
@@ -178,7 +178,8 @@ IdOf(order, str) == 255 + IndexOf(order, str)
 (***************************************************************************)
 (* Names supplied by feature code.  Order in which fea-rs hands out ids    *)
 (* (internal): STAT (elided fallback name, then per design axis its name   *)
-(* and its values), size menu name, featureNames, cvParameters.            *)
+(* and its values), size menu name, featureNames (by tag), cvParameters   *)
+(* (by tag).                                                               *)
 (***************************************************************************)
 FeaNames(f) ==
     (IF f.stat = "rec" THEN <<[k |-> "STAT.elidedFallbackNameID", i |-> 0, s |-> f.elided]>> ELSE <<>>)
@@ -189,12 +190,17 @@ FeaNames(f) ==
                      [k |-> "STAT.value.nameID", i |-> f.statAxes[a].values[v].n, s |-> f.statAxes[a].values[v].name]]])
         ELSE <<>>)
     \o (IF f.size # "~" THEN <<[k |-> "GPOS.size.nameEntry", i |-> 0, s |-> f.size]>> ELSE <<>>)
-    \o (IF f.ss # "~" THEN <<[k |-> "GSUB.ss01.uiNameID", i |-> 0, s |-> f.ss]>> ELSE <<>>)
-    \o (IF f.cv THEN <<[k |-> "GSUB.cv01.featUiLabelNameID", i |-> 0, s |-> "CV Label"],
-                       [k |-> "GSUB.cv01.featUiTooltipTextNameID", i |-> 0, s |-> "CV Tip"],
-                       [k |-> "GSUB.cv01.sampleTextNameID", i |-> 0, s |-> "CV Sample"],
-                       [k |-> "GSUB.cv01.paramUiLabelNameID", i |-> 1, s |-> "CV Param One"],
-                       [k |-> "GSUB.cv01.paramUiLabelNameID", i |-> 2, s |-> "CV Param Two"]>> ELSE <<>>)
+    \* stylistic sets: one name per feature; character variants: the feature's UI label, tooltip, sample text and
+    \* then its N parameter labels, which OpenType wants at N *consecutive* ids from FirstParamUILabelNameID --
+    \* so every label gets an id of its own even when the same string was named before
+    \o [k \in 1..Len(f.sss) |-> [k |-> "GSUB." \o f.sss[k].tag \o ".uiNameID", i |-> 0, s |-> f.sss[k].name]]
+    \o Flat([k \in 1..Len(f.cvs) |->
+          LET cv == f.cvs[k]
+              pre == "GSUB." \o cv.tag
+          IN (IF cv.label # "~" THEN <<[k |-> pre \o ".featUiLabelNameID", i |-> 0, s |-> cv.label]>> ELSE <<>>)
+             \o (IF cv.tip # "~" THEN <<[k |-> pre \o ".featUiTooltipTextNameID", i |-> 0, s |-> cv.tip]>> ELSE <<>>)
+             \o (IF cv.sample # "~" THEN <<[k |-> pre \o ".sampleTextNameID", i |-> 0, s |-> cv.sample]>> ELSE <<>>)
+             \o [j \in 1..Len(cv.params) |-> [k |-> pre \o ".paramUiLabelNameID", i |-> j, s |-> cv.params[j]]]])
 
 (***************************************************************************)
 (* The model font of a case                                                *)
@@ -330,12 +336,15 @@ AxisConfigs == {AxW, AxAlias, AxLabel, AxFamily, AxStyle, AxWW, AxWWSame, AxWWLa
 
 Inst(name, loc, ps) == [name |-> name, loc |-> loc, ps |-> ps]
 
-FeaBase == [ss |-> "~", name9 |-> "~", name2 |-> "~", cv |-> FALSE, size |-> "~", stat |-> "none", elided |-> "~",
+SS(tag, name) == [tag |-> tag, name |-> name]
+CV(tag, label, tip, sample, params) == [tag |-> tag, label |-> label, tip |-> tip, sample |-> sample, params |-> params]
+CV1 == CV("cv01", "CV Label", "CV Tip", "CV Sample", <<"CV Param One", "CV Param Two">>)
+FeaBase == [sss |-> <<>>, name9 |-> "~", name2 |-> "~", cvs |-> <<>>, size |-> "~", stat |-> "none", elided |-> "~",
             statAxes |-> <<>>]
 FeaNone == FeaBase
-FeaSS == [FeaBase EXCEPT !.ss = "Alt", !.name9 = "Designer"]
-FeaSSLabel == [FeaBase EXCEPT !.ss = "@LBL", !.name9 = "Designer"]
-FeaCV == [FeaBase EXCEPT !.ss = "Alt", !.cv = TRUE]
+FeaSS == [FeaBase EXCEPT !.sss = <<SS("ss01", "Alt")>>, !.name9 = "Designer"]
+FeaSSLabel == [FeaBase EXCEPT !.sss = <<SS("ss01", "@LBL")>>, !.name9 = "Designer"]
+FeaCV == [FeaBase EXCEPT !.sss = <<SS("ss01", "Alt")>>, !.cvs = <<CV1>>]
 FeaSize == [FeaBase EXCEPT !.size = "Size Menu"]
 StatAxesFor(axes) == [k \in 1..Len(axes) |->
     [tag |-> axes[k].tag, name |-> "Fea " \o axes[k].tag,
@@ -344,7 +353,8 @@ StatAxesFor(axes) == [k \in 1..Len(axes) |->
                 ELSE <<[n |-> 3, value |-> 100, name |-> "Fea Normal", elidable |-> TRUE]>>]]
 FeaStat(kind, axes) == [FeaBase EXCEPT !.stat = kind, !.elided = IF kind = "rec" THEN "Fea Elided" ELSE "~",
                                         !.statAxes = StatAxesFor(axes)]
-FeaAll(axes) == [FeaStat("rec", axes) EXCEPT !.ss = "Alt", !.name9 = "Designer", !.cv = TRUE, !.size = "Size Menu"]
+FeaAll(axes) == [FeaStat("rec", axes) EXCEPT !.sss = <<SS("ss01", "Alt")>>, !.name9 = "Designer", !.cvs = <<CV1>>,
+                                              !.size = "Size Menu"]
 FeaVariants(axes) == {FeaNone, FeaSS, FeaSSLabel, FeaCV, FeaSize, FeaStat("rec", axes), FeaStat("id", axes),
                       FeaStat("idn", axes), FeaAll(axes)}
 
@@ -392,7 +402,28 @@ CasesAxesFea ==
                IF m = "ufo" THEN <<>> ELSE i, fea) :
         f \in {FamRibbi, FamBlack}, m \in {"ufo", "point"}, i \in InstReps, fea \in FeaVariants(AxW)}
 
-Cases == (IF "fallback" \in Slices THEN CasesFallback ELSE {})
+\* --- slice "cvparams": two or three cvXX features whose parameter labels partly coincide (also inside one
+\* feature), feature UI labels equal to a parameter label, two stylistic sets with the same name
+CvLabels == {"Plain", "Dotted", "Slashed"}
+Cv1Params == Seqs(CvLabels, 1, 2)
+Cv2Params == IF Thorough THEN Seqs(CvLabels, 1, 3) ELSE Seqs({"Plain", "Dotted"}, 2, 3)
+Cv3Params == {<<>>, <<"Dotted", "Plain">>} \cup (IF Thorough THEN {<<"Slashed">>, <<"Plain", "Plain">>} ELSE {})
+\* (are the features' own UI labels distinct strings or "Plain" too?, stylistic sets, mode)
+CvCombos == {<<FALSE, "none", "var">>, <<TRUE, "same", "var">>, <<FALSE, "plain", "ufo">>, <<TRUE, "none", "ufo">>}
+CvFea(p1, p2, p3, combo) ==
+    [FeaBase EXCEPT
+       !.cvs = <<CV("cv01", IF combo[1] THEN "Plain" ELSE "Zero shape", "~", "~", p1),
+                 CV("cv02", IF combo[1] THEN "Plain" ELSE "Plus shape", IF combo[1] THEN "Plain" ELSE "~", "~", p2)>>
+               \o (IF p3 = <<>> THEN <<>> ELSE <<CV("cv03", "~", "~", "~", p3)>>),
+       !.sss = CASE combo[2] = "none" -> <<>>
+                 [] combo[2] = "same" -> <<SS("ss01", "Alternate"), SS("ss02", "Alternate")>>
+                 [] combo[2] = "plain" -> <<SS("ss01", "Plain"), SS("ss02", "Dotted")>>]
+CasesCv == {Case("cvparams", Src(FamRibbi, TailNone), combo[3], IF combo[3] = "var" THEN AxW ELSE <<>>, <<>>,
+                 CvFea(p1, p2, p3, combo)) :
+               p1 \in Cv1Params, p2 \in Cv2Params, p3 \in Cv3Params, combo \in CvCombos}
+
+Cases == (IF "cvparams" \in Slices THEN CasesCv ELSE {})
+         \cup (IF "fallback" \in Slices THEN CasesFallback ELSE {})
          \cup (IF "tail" \in Slices THEN CasesTail ELSE {})
          \cup (IF "inst" \in Slices THEN CasesInst ELSE {})
          \cup (IF "inst3" \in Slices THEN CasesInst3 ELSE {})
@@ -403,7 +434,7 @@ WithFea(cs) == LET nb == NB(cs.src)
                    lbl == IF Len(cs.axes) > 0
                           THEN AxisLabel([cs.axes[1] EXCEPT !.label = Resolve(cs.axes[1].label, nb, cs.src, "~", "Heft")])
                           ELSE "Weight"
-               IN [cs EXCEPT !.fea.ss = IF @ = "@LBL" THEN lbl ELSE @,
+               IN [cs EXCEPT !.fea.sss = [k \in 1..Len(@) |-> [@[k] EXCEPT !.name = IF @ = "@LBL" THEN lbl ELSE @]],
                              !.fea.name2 = IF cs.fea.stat = "idn" THEN nb.n2 ELSE "~"]
 
 \* Two states per case: the case alone, then the case with its model font.  (The model is computed in the
